@@ -13,8 +13,12 @@
 (*     whose matching subscriptions all have a lower QoS gets a copy is left open;                *)
 (*   - an unacknowledged QoS1 message is retransmitted; once the acknowledgement has been          *)
 (*     processed it is never queued again;                                                         *)
-(*   - a QoS1 PUBLISH from a client reaches the backend pipeline and is answered by a PUBACK with *)
-(*     the same packet id.                                                                        *)
+(*   - a QoS1 PUBLISH from a client reaches the backend pipeline and, unless the pipeline drops    *)
+(*     it, is answered by a PUBACK with the same packet id.  Clients re-use a packet id as soon as  *)
+(*     it has been acknowledged, and send an unacknowledged message again with the same id and      *)
+(*     DUP=1: whatever the broker remembers about ids, the message a PUBLISH carries must reach the  *)
+(*     pipeline (by this packet or by an earlier copy the pipeline accepted);                        *)
+(*   - all of this independently of other clients that connect and disconnect meanwhile.             *)
 (* Interpretation (recorded in the report): the code retransmits the *oldest* unacknowledged      *)
 (* message of a session on every tick; the contract's fairness is on "some unacknowledged         *)
 (* message", and conformance demands retransmission of the oldest one only.                        *)
@@ -30,7 +34,8 @@ CONSTANTS Populations,       \* set of subscription tables (sets of [c, f, q]) a
           MaxResend,         \* bound on retransmissions (model checking only)
           MaxUp,             \* bound on PUBLISH packets from clients (model checking only)
           ReturnOnLowQoS,    \* TRUE: sendMsgToClient as pinned (`return` at a subscriber with lower QoS); FALSE: `continue`
-          PickMaxQoS         \* FALSE: findSubscribers reports any one of a client's matching QoS (pinned); TRUE: the maximum
+          PickMaxQoS,        \* FALSE: findSubscribers reports any one of a client's matching QoS (pinned); TRUE: the maximum
+          Bystanders         \* ids of clients that hold no subscription and connect / disconnect at any time
 
 VARIABLES msgs,      \* sequence of published messages [t, q]; the index is the message id
           inq,       \* [Clients -> Seq(message id)]  outbound queue (Client.writeCh)
@@ -41,10 +46,13 @@ VARIABLES msgs,      \* sequence of published messages [t, q]; the index is the 
           up,        \* sequence of PUBLISH packets received from clients: [c, pid, q, t]
           piped,     \* indices of `up` handed to the backend (publish) pipeline
           upack,     \* sequence of PUBACKs sent to publishing clients: [c, pid]
+          infl,      \* [Clients -> [PidsUp -> message]]: client side - the unacknowledged QoS1 message that occupies a packet id (0: free)
+          byst,      \* the bystanders connected at the moment
           step       \* observation of the step just taken
 
-dvars == <<vars, msgs, inq, pend, got, ackd, resends, up, piped, upack, step>>
-dview == <<subs, msgs, inq, pend, got, ackd, resends, up, piped, upack>>
+dvars == <<vars, msgs, inq, pend, got, ackd, resends, up, piped, upack, infl, byst, step>>
+dview == <<subs, msgs, inq, pend, got, ackd, resends, up, piped, upack, infl, byst>>
+PidsUp == 1..2
 
 Routed(c, t)      == \E s \in subs : s.c = c /\ Matches(s.f, t)
 Eligible(c, t, q) == \E s \in subs : s.c = c /\ Matches(s.f, t) /\ s.q >= q
@@ -59,7 +67,7 @@ DInit ==
     /\ msgs = <<>>
     /\ inq = [c \in Clients |-> <<>>] /\ pend = [c \in Clients |-> <<>>] /\ got = [c \in Clients |-> <<>>]
     /\ ackd = [c \in Clients |-> {}] /\ resends = 0
-    /\ up = <<>> /\ piped = {} /\ upack = <<>>
+    /\ up = <<>> /\ piped = {} /\ upack = <<>> /\ infl = [c \in Clients |-> [p \in PidsUp |-> 0]] /\ byst = {}
     /\ step = [a |-> "init"]
 
 (* ---- HttpPublish: contract.  D = the set of clients that get a copy queued. ---- *)
@@ -72,7 +80,7 @@ PublishTo(t, q, D) ==
     /\ msgs' = Append(msgs, [t |-> t, q |-> q])
     /\ Enqueue(D, Len(msgs) + 1, q)
     /\ step' = [a |-> "pub", t |-> t, q |-> q, m |-> Len(msgs) + 1, to |-> D]
-    /\ UNCHANGED <<vars, got, ackd, resends, up, piped, upack>>
+    /\ UNCHANGED <<vars, got, ackd, resends, up, piped, upack, infl, byst>>
 
 (* the deliveries the contract allows for a publish *)
 Allowed(t, q, D) ==
@@ -108,7 +116,7 @@ Receive(c) ==
     /\ inq' = [inq EXCEPT ![c] = Tail(@)]
     /\ got' = [got EXCEPT ![c] = Append(@, Head(inq[c]))]
     /\ step' = [a |-> "recv", c |-> c, m |-> Head(inq[c])]
-    /\ UNCHANGED <<vars, msgs, pend, ackd, resends, up, piped, upack>>
+    /\ UNCHANGED <<vars, msgs, pend, ackd, resends, up, piped, upack, infl, byst>>
 
 (* the client's PUBACK is processed by the broker (session.puback) *)
 Ack(c, m) ==
@@ -116,7 +124,7 @@ Ack(c, m) ==
     /\ pend' = [pend EXCEPT ![c] = SelectSeq(@, LAMBDA x : x # m)]
     /\ ackd' = [ackd EXCEPT ![c] = @ \cup {m}]
     /\ step' = [a |-> "ack", c |-> c, m |-> m]
-    /\ UNCHANGED <<vars, msgs, inq, got, resends, up, piped, upack>>
+    /\ UNCHANGED <<vars, msgs, inq, got, resends, up, piped, upack, infl, byst>>
 
 (* resend tick of the session: an unacknowledged message is queued again.  The contract allows    *)
 (* any unacknowledged message, the code picks the oldest one (OldestOnly).                          *)
@@ -127,21 +135,38 @@ Resend(c, m) ==
     /\ inq' = [inq EXCEPT ![c] = Append(@, m)]
     /\ resends' = resends + 1
     /\ step' = [a |-> "resend", c |-> c, m |-> m]
-    /\ UNCHANGED <<vars, msgs, pend, got, ackd, up, piped, upack>>
+    /\ UNCHANGED <<vars, msgs, pend, got, ackd, up, piped, upack, infl, byst>>
 ResendOldest(c) == pend[c] # <<>> /\ Resend(c, Head(pend[c]))
 
-(* a PUBLISH from client c (no publish limiter configured, pipeline does not drop): one step of   *)
-(* the connection's read loop - hand it to the pipeline, then PUBACK with the same id for QoS1     *)
-ClientPublish(c, pid, q, t) ==
+(* a PUBLISH from client c (no publish limiter configured): one step of the connection's read loop  *)
+(* - hand it to the pipeline, then, unless the pipeline drops it (v = "drop"), PUBACK with the same   *)
+(* id for QoS1.  The client: a new QoS1 message takes a free packet id (DUP=0); a message that has     *)
+(* not been acknowledged is sent again with its id and DUP=1 (re); an acknowledged id is free again.   *)
+(* u is the message the packet carries (the index of its first transmission).                          *)
+Verdicts == {"pass", "drop"}
+ClientPublish(c, pid, q, t, re, v) ==
     /\ Len(up) < MaxUp
-    /\ up' = Append(up, [c |-> c, pid |-> pid, q |-> q, t |-> t])
-    /\ piped' = piped \cup {Len(up) + 1}
-    /\ upack' = IF q = 1 THEN Append(upack, [c |-> c, pid |-> pid]) ELSE upack
-    /\ step' = [a |-> "cpub", c |-> c, pid |-> pid, q |-> q, t |-> t]
-    /\ UNCHANGED <<vars, msgs, inq, pend, got, ackd, resends>>
+    /\ re => (q = 1 /\ infl[c][pid] # 0)
+    /\ (~re /\ q = 1) => infl[c][pid] = 0
+    /\ LET k == Len(up) + 1
+           u == IF re THEN infl[c][pid] ELSE k
+           acked == q = 1 /\ v = "pass"
+       IN /\ up' = Append(up, [c |-> c, pid |-> pid, q |-> q, t |-> t, u |-> u, dup |-> re, v |-> v])
+          /\ piped' = piped \cup {k}
+          /\ upack' = IF acked THEN Append(upack, [c |-> c, pid |-> pid]) ELSE upack
+          /\ infl' = IF q = 0 THEN infl ELSE [infl EXCEPT ![c][pid] = IF acked THEN 0 ELSE u]
+          /\ step' = [a |-> "cpub", c |-> c, pid |-> pid, q |-> q, t |-> t, u |-> u, dup |-> re, v |-> v]
+    /\ UNCHANGED <<vars, msgs, inq, pend, got, ackd, resends, byst>>
 
-Rest == \E c \in Clients : \/ Receive(c) \/ (\E m \in 1..Len(msgs) : Ack(c, m)) \/ ResendOldest(c)
-                           \/ \E pid \in 1..2, q \in QoS, t \in PubTopics : ClientPublish(c, pid, q, t)
+(* a client that holds no subscription connects or disconnects: nothing the property talks about changes *)
+Bystander(x) ==
+    /\ byst' = IF x \in byst THEN byst \ {x} ELSE byst \cup {x}
+    /\ step' = [a |-> "bystander", x |-> x]
+    /\ UNCHANGED <<vars, msgs, inq, pend, got, ackd, resends, up, piped, upack, infl>>
+
+Rest == \/ \E c \in Clients : \/ Receive(c) \/ (\E m \in 1..Len(msgs) : Ack(c, m)) \/ ResendOldest(c)
+                              \/ \E pid \in PidsUp, q \in QoS, t \in PubTopics, re \in BOOLEAN, v \in Verdicts : ClientPublish(c, pid, q, t, re, v)
+        \/ \E x \in Bystanders : Bystander(x)
 
 DNext  == HttpPublish \/ Rest          \* contract
 INextD == ImplPublish \/ Rest          \* implementation-shaped
@@ -168,12 +193,20 @@ PendingSound == \A c \in Clients : \A m \in SeqSet(pend[c]) : msgs[m].q = 1 /\ m
 (* every QoS1 copy sent is pending until acknowledged: nothing is forgotten *)
 NothingForgotten == \A c \in Clients : \A m \in 1..Len(msgs) :
                         (msgs[m].q = 1 /\ (m \in SeqSet(inq[c]) \/ m \in SeqSet(got[c]))) => (m \in SeqSet(pend[c]) \/ m \in ackd[c])
-(* every QoS1 PUBLISH of a client went to the pipeline and was answered with its own packet id;    *)
-(* no PUBACK without such a PUBLISH                                                                  *)
+(* every PUBLISH of a client went to the pipeline and every QoS1 one the pipeline did not drop was   *)
+(* answered with its own packet id; no PUBACK without such a PUBLISH                                 *)
+MustAck(i) == up[i].q = 1 /\ up[i].v = "pass"
 PubAckSameId ==
-    /\ \A i \in 1..Len(up) : i \in piped /\ (up[i].q = 1 => \E j \in 1..Len(upack) : upack[j] = [c |-> up[i].c, pid |-> up[i].pid])
-    /\ \A j \in 1..Len(upack) : \E i \in 1..Len(up) : up[i].q = 1 /\ upack[j] = [c |-> up[i].c, pid |-> up[i].pid]
-    /\ Len(upack) = Cardinality({i \in 1..Len(up) : up[i].q = 1})
+    /\ \A i \in 1..Len(up) : i \in piped /\ (MustAck(i) => \E j \in 1..Len(upack) : upack[j] = [c |-> up[i].c, pid |-> up[i].pid])
+    /\ \A j \in 1..Len(upack) : \E i \in 1..Len(up) : MustAck(i) /\ upack[j] = [c |-> up[i].c, pid |-> up[i].pid]
+    /\ Len(upack) = Cardinality({i \in 1..Len(up) : MustAck(i)})
+(* the contract's form of the first conjunct (a broker may recognise a retransmission): the message of every   *)
+(* PUBLISH has been handed to the pipeline - if the pipeline lets this packet pass, by a call it let pass        *)
+Handed(i) == \E j \in piped : up[j].c = up[i].c /\ up[j].u = up[i].u /\ (up[i].v = "pass" => up[j].v = "pass")
+MessageReachesPipeline == \A i \in 1..Len(up) : Handed(i)
+(* a client's packet id names at most one unacknowledged message *)
+InflightSound == \A c \in Clients : \A p \in PidsUp : infl[c][p] # 0 =>
+                     \E i \in 1..Len(up) : up[i].c = c /\ up[i].pid = p /\ up[i].u = infl[c][p] /\ up[i].q = 1
 (* liveness (checked without MaxResend biting: see the cfg): the oldest unacknowledged message keeps arriving *)
 Count(s, m) == Len(SelectSeq(s, LAMBDA x : x = m))
 Redeliver == \A c \in Clients : \A m \in 1..MaxPub : \A k \in 1..2 :
@@ -190,5 +223,7 @@ Tables(F, K) ==
     IN prod(Clients)
 MCTopics == {TAB, TA}
 PopsSmall == Tables({FAH, FAB}, 2)
+PopsNone  == {{}}
+OneTopic  == {TAB}
 PopsWide  == Tables({FAH, FAB, FPB, FAP}, 2)
 =============================================================================
